@@ -118,6 +118,39 @@ Example kat_model_hmac_long_key :
         142; 11; 198; 33; 55; 40; 197; 20; 5; 70; 4; 15; 14; 227; 127; 84].
 Proof. vm_compute. reflexivity. Qed.
 
+(* the two key lengths at which hmac() changes branch: exactly one block (used as it is; NIST CSRC
+   HMAC-SHA256 example "keylen = blocklen", key 00..3F) and one byte more (hashed first; the expected value
+   was computed with python hmac/hashlib), for the transcription and for the model *)
+Definition kat_msg_blocklen : list Z :=
+  [83; 97; 109; 112; 108; 101; 32; 109; 101; 115; 115; 97; 103; 101; 32; 102; 111; 114; 32; 107; 101; 121; 108; 101; 110; 61; 98; 108; 111; 99; 107; 108; 101; 110].
+Example kat_spec_hmac_key64 : rfc2104 (map Z.of_nat (seq 0 64)) kat_msg_blocklen =
+  [139; 185; 161; 219; 152; 6; 242; 13; 247; 247; 123; 130; 19; 140; 121; 20;
+   209; 116; 213; 158; 19; 220; 77; 1; 105; 201; 5; 123; 19; 62; 29; 98].
+Proof. vm_compute. reflexivity. Qed.
+Example kat_spec_hmac_key65 : rfc2104 (map Z.of_nat (seq 0 65)) kat_msg_blocklen =
+  [88; 144; 221; 124; 50; 90; 89; 198; 242; 91; 247; 45; 242; 85; 74; 114;
+   236; 165; 212; 29; 119; 22; 106; 211; 177; 92; 245; 139; 126; 230; 236; 100].
+Proof. vm_compute. reflexivity. Qed.
+Example kat_model_hmac_key64 : hmac (map Z.of_nat (seq 0 64)) kat_msg_blocklen = Some
+  [139; 185; 161; 219; 152; 6; 242; 13; 247; 247; 123; 130; 19; 140; 121; 20;
+   209; 116; 213; 158; 19; 220; 77; 1; 105; 201; 5; 123; 19; 62; 29; 98].
+Proof. vm_compute. reflexivity. Qed.
+Example kat_model_hmac_key65 : hmac (map Z.of_nat (seq 0 65)) kat_msg_blocklen = Some
+  [88; 144; 221; 124; 50; 90; 89; 198; 242; 91; 247; 45; 242; 85; 74; 114;
+   236; 165; 212; 29; 119; 22; 106; 211; 177; 92; 245; 139; 126; 230; 236; 100].
+Proof. vm_compute. reflexivity. Qed.
+(* the translator emits the element width of K[] and state[] and refuses entries that do not fit; seen from Coq: *)
+Example tables_fit_their_types : gen_K_bits = 32 /\ gen_H0_bits = 32
+  /\ forallb (fun v => andb (0 <=? v) (v <? 2 ^ gen_K_bits)) gen_K = true
+  /\ forallb (fun v => andb (0 <=? v) (v <? 2 ^ gen_H0_bits)) gen_H0 = true /\ 0 <= gen_ipad < 256 /\ 0 <= gen_opad < 256.
+Proof. split; [reflexivity|]. split; [reflexivity|]. split; [vm_compute; reflexivity|]. split; [vm_compute; reflexivity|]. split; split; vm_compute; congruence. Qed.
+(* the length field: a hasher whose counter has all of its upper bytes set (reachable only by absorbing 2^56 bytes,
+   so not by any test) writes the big-endian bit length into buffer[56..63] *)
+Example ex_length_field :
+  let p := {| state := gen_H0; count := 0x0123456789abcd; buffer := repeat 0 64 |} in
+  skipn 56 (buffer (len_bytes 8 (w64 (Z.shiftl (count p) 3)) p 56)) = [0x00; 0x09; 0x1a; 0x2b; 0x3c; 0x4d; 0x5e; 0x68].
+Proof. vm_compute. reflexivity. Qed.
+
 (* the hypotheses are satisfiable on non-trivial objects: eight words; a hasher in the middle of its
    second block (70 bytes absorbed: one block compressed, six bytes buffered) *)
 Example ex_is8 : is8 fips_H0 /\ length (words_of_block (repeat 7 64)) = 16%nat.
